@@ -6,17 +6,24 @@ package c03
 import (
 	"bytes"
 	"context"
+	"encoding/binary"
 	"encoding/json"
 	"fmt"
+	"math"
 	"net/http"
 	"net/http/httptest"
 	"os"
+	"strings"
 	"testing"
+	"time"
 
+	"github.com/pierrec/lz4/v4"
 	"github.com/sirupsen/logrus"
 	"google.golang.org/protobuf/proto"
 
+	"github.com/atlassian/gostatsd"
 	"github.com/atlassian/gostatsd/pb"
+	"github.com/atlassian/gostatsd/pkg/statsd"
 	"github.com/atlassian/gostatsd/pkg/web"
 
 	"verifharness/internal/fakes"
@@ -34,7 +41,29 @@ type hcase struct {
 	Exp  []string `json:"exp"`
 }
 
+// rawProto builds a message whose structure is chosen by seed: which series are present, sets and timers with or
+// without values, map entries with absent values. The series keys repeat across requests so that later requests merge
+// into what earlier ones left downstream.
 func rawProto(rng *vh.Rng) []byte {
+	if rng.Intn(2) == 0 {
+		m := &pb.RawMessageV2{}
+		if rng.Intn(2) == 0 {
+			m.Sets = map[string]*pb.SetTagV2{"s": {TagMap: map[string]*pb.RawSetV2{"": {}}}} // a set without members
+		} else {
+			m.Sets = map[string]*pb.SetTagV2{"s": {TagMap: map[string]*pb.RawSetV2{"": {Values: []string{fmt.Sprint(rng.Intn(9))}}}}}
+		}
+		if rng.Intn(2) == 0 {
+			m.Timers = map[string]*pb.TimerTagV2{"t": {TagMap: map[string]*pb.RawTimerV2{"": {}}}} // a timer without values
+		}
+		if rng.Intn(3) == 0 {
+			m.Counters = map[string]*pb.CounterTagV2{"c": {}}
+			m.Gauges = map[string]*pb.GaugeTagV2{"g": {TagMap: map[string]*pb.RawGaugeV2{"": nil}}}
+		}
+		b, err := proto.Marshal(m)
+		if err == nil {
+			return b
+		}
+	}
 	m := &pb.RawMessageV2{
 		Counters: map[string]*pb.CounterTagV2{"c": {TagMap: map[string]*pb.RawCounterV2{"a:b": {Tags: []string{"a:b"}, Hostname: "h", Value: int64(rng.Intn(1000))}}}},
 		Gauges:   map[string]*pb.GaugeTagV2{"g": {TagMap: map[string]*pb.RawGaugeV2{"": {Value: float64(rng.Intn(100)) / 7}}}},
@@ -110,8 +139,65 @@ func body(r req, rng *vh.Rng) []byte {
 		return trunc(l4(append(p, garbage(rng)...), rng), rng)
 	case "l_empty":
 		return l4(nil, rng)
+	case "l_sized":
+		return lz4Frame(p, len(p), false, rng)
+	case "l_size_lie":
+		return lz4Frame(p, len(p)+1+rng.Intn(100000), false, rng)
+	case "l_size_huge":
+		return lz4Frame(p, []int{1 << 31, 1 << 40, 1 << 62, math.MaxInt64}[rng.Intn(4)], false, rng)
+	case "l_blocksum":
+		return lz4Frame(p, -1, true, rng)
+	case "l_blocklen_lie":
+		b := l4(append(p, garbage(rng)...), rng)
+		if len(b) > 11 { // the first block length field follows the 7-byte frame descriptor
+			binary.LittleEndian.PutUint32(b[7:], uint32(0x7fffff00+rng.Intn(255)))
+		}
+		return b
+	case "z_dictflag":
+		b := zl(p, rng)
+		if len(b) > 2 { // set FDICT and repair FCHECK so that the header is well formed
+			b[1] |= 0x20
+			b[1] &^= 0x1f
+			b[1] += byte(31 - (uint16(b[0])<<8|uint16(b[1]))%31)
+		}
+		return b
 	}
 	return nil
+}
+
+// lz4Frame compresses p into an lz4 frame whose descriptor carries a content size (size >= 0; possibly a lie) and / or
+// block checksums. A rewritten size invalidates the one-byte header checksum; it is repaired by asking the lz4 library
+// itself which of the 256 values it accepts.
+func lz4Frame(p []byte, size int, blockSums bool, rng *vh.Rng) []byte {
+	var out bytes.Buffer
+	w := lz4.NewWriter(&out)
+	opts := []lz4.Option{lz4.BlockChecksumOption(blockSums), lz4.ChecksumOption(rng.Intn(2) == 0)}
+	if size >= 0 {
+		opts = append(opts, lz4.SizeOption(uint64(len(p))))
+	}
+	if err := w.Apply(opts...); err != nil {
+		return l4(p, rng)
+	}
+	w.Write(p)
+	w.Close()
+	b := out.Bytes()
+	if size < 0 || size == len(p) || len(b) < 15 {
+		return b
+	}
+	binary.LittleEndian.PutUint64(b[6:], uint64(size)) // magic(4) FLG BD size(8) HC
+	for hc := 0; hc < 256; hc++ {
+		b[14] = byte(hc)
+		ok := func() (ok bool) {
+			defer func() { recover() }()
+			r := lz4.NewReader(bytes.NewReader(b))
+			_, err := r.Read(make([]byte, 1))
+			return err == nil || !strings.Contains(err.Error(), "header")
+		}()
+		if ok {
+			break
+		}
+	}
+	return b
 }
 
 func TestCases(t *testing.T) {
@@ -124,12 +210,34 @@ func TestCases(t *testing.T) {
 	logger := logrus.New()
 	logger.SetLevel(logrus.PanicLevel)
 	h := &fakes.Handler{}
+	// what the ingestion endpoint accepted is handed to a real aggregator, as the pipeline would: a payload that was
+	// answered 202 must not crash the stage behind it (the aggregator runs under recover() here; in the server it
+	// runs in a worker goroutine without one)
+	agg := statsd.NewMetricAggregator([]float64{90, -90}, -1, -1, -1, -1, gostatsd.TimerSubtypes{}, 2)
+	downstream := ""
+	merges := 0
+	h.OnMap = func(mm *gostatsd.MetricMap) {
+		defer func() {
+			if x := recover(); x != nil {
+				downstream = fmt.Sprint(x)
+				agg = statsd.NewMetricAggregator([]float64{90, -90}, -1, -1, -1, -1, gostatsd.TimerSubtypes{}, 2)
+			}
+		}()
+		agg.ReceiveMap(mm)
+		merges++
+		if merges%3 == 0 { // negative expiry: every series starts from nothing again after a flush
+			agg.Flush(time.Second)
+			agg.Process(func(*gostatsd.MetricMap) {})
+			agg.Reset()
+		}
+	}
 	srv, err := web.NewHttpServer(logger, h, "t", "127.0.0.1:0", false, false, true, false, nil, nil)
 	if err != nil {
 		t.Fatal(err)
 	}
 	seed := vh.Seed()
 	mutations := vh.EnvInt("VERIF_MUTATIONS", 2)
+	every := vh.EnvInt("VERIF_EVERY", 1)
 	do := func(r req, b []byte) (status int, nm, ne int, panicked string) {
 		defer func() {
 			if x := recover(); x != nil {
@@ -155,6 +263,9 @@ func TestCases(t *testing.T) {
 		if err := json.Unmarshal(raw, &c); err != nil {
 			return err
 		}
+		if len(c.Reqs) > 1 && (idx+int(seed))%every != 0 { // quick tier: every single request, a seeded share of the pairs
+			return nil
+		}
 		rng := vh.NewRng(seed, idx)
 		for i, r := range c.Reqs {
 			for v := 0; v <= mutations; v++ {
@@ -177,6 +288,10 @@ func TestCases(t *testing.T) {
 				if pan != "" {
 					res.Fail("C03", "http-panic:"+cls, fmt.Sprintf("ingestion handler panicked: %s", pan), rc)
 					continue
+				}
+				if downstream != "" {
+					res.Fail("C03", "accepted-payload-crashes-aggregation", fmt.Sprintf("a payload answered with %d crashed the aggregator behind the endpoint: %s", status, downstream), rc)
+					downstream = ""
 				}
 				if status == 0 {
 					res.Fail("C03", "http-no-status:"+cls, "request was not answered with a status", rc)
